@@ -2,6 +2,7 @@
 
 pub mod calloc;
 pub mod engine;
+pub mod fuzz;
 pub mod ledger;
 pub mod memsrc;
 pub mod procfs;
